@@ -801,7 +801,8 @@ func run(c *core.Ctx) {
 
 	var tasks []task
 	// (1) foreign, undecryptable and banned keys on every license
-	for _, lic := range licenses {
+	// ... and on a license whose contract signature is 0 (id 4: version 1 cipher, signature field at its boundary)
+	for _, lic := range append(append([]int{}, licenses...), 4) {
 		lic := lic
 		tasks = append(tasks, func(w *worker, st *stats) { w.keyKinds(lic, true, st) })
 	}
